@@ -7,6 +7,7 @@ import (
 	"fmt"
 	"os"
 	"path/filepath"
+	"sort"
 	"strings"
 	"time"
 
@@ -237,24 +238,72 @@ func metaFilename(filename string) string {
 
 func (fs *filestore) Walk(ctx context.Context, bucket string, cb func(ctx context.Context, filename string, fInfo os.FileInfo) error) error {
 	root := filepath.Join(fs.gcsDir, bucket)
-	return filepath.Walk(root, func(path string, fInfo os.FileInfo, err error) error {
-		if strings.HasSuffix(path, metaExtention) {
-			// Ignore metadata files
+	fInfo, err := os.Lstat(root)
+	if err != nil {
+		if os.IsNotExist(err) {
+			return err
+		}
+		return fmt.Errorf("walk error at %s: %w", "", err)
+	}
+	if err := fs.walkSorted(ctx, root, "", fInfo, cb); err != nil && err != filepath.SkipDir {
+		return err
+	}
+	return nil
+}
+
+// walkSorted is filepath.Walk, except that the entries of a directory are visited in the
+// bytewise order of the object names found below them, which is what listing (cursor,
+// prefix pruning, early exit) relies on. A directory "d" stands for names that start with
+// "d/", so it is ordered as "d/": after the file "d.txt", before the file "d0".
+// (filepath.Walk orders by entry name alone and so yields "d/x" before "d.txt".)
+func (fs *filestore) walkSorted(ctx context.Context, path string, filename string, fInfo os.FileInfo, cb func(ctx context.Context, filename string, fInfo os.FileInfo) error) error {
+	if strings.HasSuffix(path, metaExtention) {
+		// Ignore metadata files
+		return nil
+	}
+	if err := cb(ctx, filename, fInfo); err != nil {
+		if fInfo.IsDir() && err == filepath.SkipDir {
 			return nil
 		}
+		return err
+	}
+	if !fInfo.IsDir() {
+		return nil
+	}
 
-		filename := strings.TrimPrefix(path, root)
-		filename = strings.TrimPrefix(filename, string(os.PathSeparator))
+	entries, err := os.ReadDir(path)
+	if err != nil {
+		if os.IsNotExist(err) {
+			return err
+		}
+		return fmt.Errorf("walk error at %s: %w", filename, err)
+	}
+	sortKey := func(e os.DirEntry) string {
+		if e.IsDir() {
+			return e.Name() + "/"
+		}
+		return e.Name()
+	}
+	sort.Slice(entries, func(i, j int) bool { return sortKey(entries[i]) < sortKey(entries[j]) })
+
+	for _, e := range entries {
+		eInfo, err := e.Info()
 		if err != nil {
 			if os.IsNotExist(err) {
-				return err
+				continue // removed since the directory was read
 			}
 			return fmt.Errorf("walk error at %s: %w", filename, err)
 		}
-
-		if err := cb(ctx, filename, fInfo); err != nil {
+		name := e.Name()
+		if filename != "" {
+			name = filename + string(os.PathSeparator) + e.Name()
+		}
+		if err := fs.walkSorted(ctx, filepath.Join(path, e.Name()), name, eInfo, cb); err != nil {
+			if err == filepath.SkipDir {
+				return nil // a file asked to skip the rest of its directory
+			}
 			return err
 		}
-		return nil
-	})
+	}
+	return nil
 }
